@@ -11,6 +11,12 @@ TRUST = ("z3 5.1; CPython; the symx proxies/rewriter (cross-validated on sampled
 CHECKS = {
  "C01": dict(text="Every member of the conforming-program family (micro skeletons with every operator slot symbolic + generated .c/.h programs with symbolic identifier/constant/literal/operator slots) is analysed by the real pipeline on symbolic text; on every path class: no Error-level diagnostic, no fatal error, no exception.",
              ref="4.1", tech="symbolic execution of the whole pipeline (Lexer + Registry.run + all rules) on program text with symbolic slots (symx + z3)"),
+ "C17": dict(text="Partition argument over comment/string/char contents: for each program the contents of up to 3-4 comment and literal slots are symbolic over the code-like alphabet; the real pipeline's outcome (verdict, codes, lines, columns) must be identical on every explored path class.",
+             ref="4.17", tech="symbolic execution of the whole pipeline with symbolic comment/literal contents; relational claim by path partition (symx + z3)"),
+ "C18": dict(text="Partition argument over identifier spellings: every user identifier of a program is symbolic (consistent at all occurrences, class and length kept, keywords excluded by solver constraints); the outcome must be identical on every path class.",
+             ref="4.18", tech="symbolic execution of the whole pipeline with symbolic identifier spellings; relational claim by path partition (symx + z3)"),
+ "C19": dict(text="Two pipeline runs per path class on shared symbolic slots (base file / file with the 42 header, an inserted comment line, an appended conforming function); the second run's diagnostics must be the first's shifted by the inserted lines, nothing added or removed.",
+             ref="4.19", tech="two-run symbolic execution of the whole pipeline on shared symbolic slots (symx + z3)"),
  "C05": dict(text="Tokenizer totality by one-step induction: for every window of <=N symbolic ASCII characters and every start position one get_next_token() call returns and raises nothing (solver-decided per path class).",
              ref="4.5", tech="symbolic execution of Lexer.get_next_token (symx + z3), one-step induction over the token stream"),
  "C09": dict(text="Token/end/diagnostic positions equal an independent position scanner for every window of <=N symbolic characters and every symbolic start (line, col); induction over tokens extends it to whole files.",
